@@ -231,5 +231,35 @@ Section Dead.
   Proof. intro H. cbn [go]. now rewrite H. Qed.
 End Dead.
 
+(* ---------------------------------------------------------------- more fuel never changes a result *)
+Section Fuel.
+  Context {T : Type}.
+  Variable P : prims T.
+
+  Ltac fm_step IH :=
+    match goal with
+    | H : None = Some _ |- _ => discriminate H
+    | H : Some _ = Some _ |- _ => exact H
+    | H : go P ?f ?k ?x ?s = Some ?r |- go P ?f' ?k ?x ?s = Some ?r => exact (IH _ _ _ _ H)
+    | H : context [match go P ?f ?k ?x ?s with _ => _ end] |- _ =>
+        let E := fresh "E" in
+        destruct (go P f k x s) as [[? ?]|] eqn:E; [rewrite (IH _ _ _ _ E) | discriminate H]
+    | H : context [match (match ?v with _ => _ end) with _ => _ end] |- _ => destruct v
+    | H : context [match (if ?c then _ else _) with _ => _ end] |- _ => destruct c
+    | H : context [let '(_, _) := ?e in _] |- _ => destruct e as [? ?]
+    | H : context [if ?c then _ else _] |- _ => destruct c
+    | H : context [match ?v with _ => _ end] |- _ => destruct v
+    end.
+
+  Lemma go_fuel_mono : forall f f' k x s r, (f <= f')%nat -> go P f k x s = Some r -> go P f' k x s = Some r.
+  Proof.
+    induction f as [|f IHf]; intros f' k x s r Hle H; [discriminate|].
+    destruct f' as [|f']; [lia|].
+    assert (IH : forall k x s r, go P f k x s = Some r -> go P f' k x s = Some r).
+    { intros. apply (IHf f'); [lia|assumption]. }
+    clear IHf. destruct k; cbn [go] in *; repeat fm_step IH.
+  Qed.
+End Fuel.
+
 Lemma WF_init : WF sh_init.
 Proof. intros t H. unfold th, sh_init in H. cbn [thr] in H. rewrite get_empty in H. discriminate. Qed.
